@@ -114,6 +114,10 @@ func init() {
 
 func init() {
 	registerSystem("C01", func() *explore.System { return aolSystem(aolVariant{ID: "C01", OwnRec: true, Ctl: []string{"NB", "RS", "XI"}}) })
+	registerSystem("C01/big", func() *explore.System {
+		acc := aolAccs()
+		return aolSystem(aolVariant{ID: "C01/big", OwnRec: true, Ctl: []string{"NB", "XI"}, Inject: &aolInject{Big: &aolBig{Owner: acc.A, Writer: acc.W, Name: "a", N: 255}}})
+	})
 	registerSystem("C02", func() *explore.System { return aolSystem(aolVariant{ID: "C02", Forged: true, OwnACL: true, Ctl: []string{"NB"}}) })
 	registerSystem("C13/init0", func() *explore.System { return aolSystem(aolVariant{ID: "C13/init0", OwnCount: true, Ctl: []string{"NB", "XI"}}) })
 	registerSystem("C13/init1", func() *explore.System { return aolSystem(aolVariant{ID: "C13/init1", OwnCount: true, Ctl: []string{"NB", "XI"}, Inject: c13Inject()}) })
